@@ -215,7 +215,114 @@ def mut_fallthrough(repo: Repo) -> List[Mutant]:
     return out
 
 
+# ------------------------------------------------------------------ quantifiers of safety-relevant guards
+# (file, predicate named in the comprehension element) -> (canonical quantifier over the *positive* predicate, reason)
+#   "any": the guard fires / the fact holds if SOME element has the predicate;   "all": only if EVERY element has it.
+REVIEWED_QUANTIFIERS = {
+    ("program/transformer/conditions_normalizer.py", "is_iteration_dependent"): ("any", "a condition is refused if ANY of its variables depends on the iteration: the constant-probability abstraction needs all of them to be iteration independent"),
+    ("invariants/exponent_lattice.py", "is_Rational"): ("all", "the coprimality shortcut is meaningful only if ALL bases are rational"),
+    ("invariants/exponent_lattice.py", "is_rational"): ("all", "the factorisation based lattice algorithm needs ALL bases rational"),
+    ("invariants/exponent_lattice.py", "is_integer"): ("all", "two bases are equivalent only if ALL entries of the transition matrix are integers"),
+    ("program/distribution/truncated_normal.py", "is_Number"): ("notall", "the moment is refused unless ALL four parameters are numbers (refusal if NOT ALL are)"),
+    ("type_inference/finite_fixed_point_typer.py", "has_changed"): ("none", "the fixed point is reached only if NO variable changed"),
+    ("type_inference/finite_fixed_point_typer.py", "is_number"): ("all", "a value set becomes a type only if ALL its values are numbers"),
+    ("program/type/finite.py", "v == 0 or v == 1"): ("all", "binary means ALL values are 0 or 1"),
+    ("cli/actions/goals_action.py", "free_symbols"): ("none", "the minimum of the bounds is taken only if NONE of them still has free symbols"),
+    ("program/program.py", "is_dependent"): ("any", "two variable sets are dependent if ANY pair is"),
+    ("program/transformer/update_info_transformer.py", "iteration_dependent"): ("any", "a variable is iteration dependent if ANY parent is"),
+}
+
+
+def _canonical_quantifier(call: ast.Call) -> Optional[Tuple[str, str]]:
+    """('any' | 'all' | 'none' | 'notall', predicate text) of an any()/all() call over a comprehension, with an enclosing `not`
+    and a leading `not` of the element folded in:  all(not P) = none P,  not any(P) = none P,  not all(P) = notall P,  any(not P) = notall P."""
+    q = call_name(call)
+    if q not in ("any", "all") or not call.args:
+        return None
+    a0 = call.args[0]
+    if isinstance(a0, (ast.ListComp, ast.GeneratorExp, ast.SetComp)):
+        elt = a0.elt
+    elif isinstance(a0, (ast.List, ast.Tuple, ast.Set)) and a0.elts:
+        # a literal list of tests of one kind: [a.is_Number, b.is_Number, ...]
+        negs = {isinstance(e, ast.UnaryOp) and isinstance(e.op, ast.Not) for e in a0.elts}
+        if len(negs) != 1:
+            return None
+        elt = a0.elts[0]
+    else:
+        return None
+    neg_elt = False
+    while isinstance(elt, ast.UnaryOp) and isinstance(elt.op, ast.Not):
+        elt = elt.operand
+        neg_elt = not neg_elt
+    from ..model import parent as _parent
+    par = _parent(call)
+    neg_out = isinstance(par, ast.UnaryOp) and isinstance(par.op, ast.Not)
+    table = {("any", False, False): "any", ("any", True, False): "notall", ("any", False, True): "none", ("any", True, True): "all",
+             ("all", False, False): "all", ("all", True, False): "none", ("all", False, True): "notall", ("all", True, True): "any"}
+    return table[(q, neg_elt, neg_out)], src(elt)
+
+
+def rule_quantifiers(repo: Repo) -> List[Ob]:
+    obs = []
+    seen = set()
+    for f in repo.functions:
+        if f.relpath.startswith(SCOPE_EXCLUDE):
+            continue
+        for n in walk_no_nested(f.node):
+            if not isinstance(n, ast.Call):
+                continue
+            cq = _canonical_quantifier(n)
+            if cq is None:
+                continue
+            quant, pred = cq
+            for (rp, name), (want, reason) in REVIEWED_QUANTIFIERS.items():
+                if rp == f.relpath and name in pred:
+                    seen.add((rp, name))
+                    key = f"{rp}::quantifier::{name}"
+                    # an `if not any(..)`-style use whose negation is applied elsewhere cannot be told apart here: only the direct forms are compared
+                    ok = quant == want
+                    flipped = {"any": "all", "all": "any", "none": "notall", "notall": "none"}[want]
+                    if ok:
+                        obs.append(Ob("E-quantifier", key, rp, n.lineno, f.qualname, True, f"{want.upper()}: {reason}"))
+                    elif quant == flipped:
+                        obs.append(Ob("E-quantifier", key, rp, n.lineno, f.qualname, False,
+                                      f"`{src(n)[:70]}` quantifies {quant.upper()} where the argument needs {want.upper()}: {reason}"))
+                    else:
+                        obs.append(inconclusive("E-quantifier", key, rp, n.lineno, f.qualname, f"`{src(n)[:60]}` is neither the reviewed quantifier nor its flip"))
+    for (rp, name), (want, reason) in REVIEWED_QUANTIFIERS.items():
+        if (rp, name) not in seen:
+            obs.append(inconclusive("E-quantifier", f"{rp}::quantifier::{name}", rp, 0, "", f"the reviewed {want.upper()}-guard over `{name}` is no longer written with any()/all()"))
+    return obs
+
+
+def mut_quantifiers(repo: Repo) -> List[Mutant]:
+    out = []
+
+    def flip(rp, qual, attr, control=False):
+        def tr(tree):
+            fn = find_def(tree, qual)
+            if fn is None:
+                return False
+            for n in ast.walk(fn):
+                if isinstance(n, ast.Call) and call_name(n) in ("any", "all") and attr in src(n):
+                    n.func = ast.Name(id="all" if call_name(n) == "any" else "any", ctx=ast.Load())
+                    return True
+            return False
+        ov = mutate_module(repo, rp, tr)
+        if ov:
+            out.append(Mutant(f"quantifier-flipped:{attr}", ov, "fire", f"quantifier::{attr}", control=control))
+    flip("program/transformer/conditions_normalizer.py", "ConditionsNormalizer._try_abstract_failed_condition", "is_iteration_dependent", True)
+    flip("type_inference/finite_fixed_point_typer.py", "FiniteFixedPointTyper._extract_types", "is_number")
+    flip("program/distribution/truncated_normal.py", "TruncNormal.get_moment", "is_Number")
+    # De Morgan spelling of the fixed-point test must stay silent
+    ov = text_mutant(repo, "type_inference/finite_fixed_point_typer.py", "all([not s.has_changed for s in self.state.values()])", "not any([s.has_changed for s in self.state.values()])")
+    if ov:
+        out.append(Mutant("benign-de-morgan", ov, "silent"))
+    return out
+
+
 RULES = {
     "EXCEPT": Rule("E-except", rule_except_discipline, 3, "every exception handler re-raises on all its paths, or is a reviewed complete fallback", mut_except_discipline),
+    "QUANT": Rule("E-quantifier", rule_quantifiers, 8, "reviewed safety-relevant any()/all() guards keep their quantifier (negations folded: De Morgan spellings are equal)", mut_quantifiers),
     "FALLTHROUGH": Rule("E-fallthrough", rule_fallthrough, 1, "no function returns a value on some paths and ends without one on others (an unhandled case is an error, not None)", mut_fallthrough),
 }
